@@ -32,6 +32,10 @@ pub(crate) struct Thread {
     /// Number of times the thread yielded
     pub yield_count: usize,
 
+    /// Causality of the threads that unparked this thread. It is acquired when
+    /// an unpark is consumed by `park`, not when `unpark` is called.
+    unpark_causality: VersionVec,
+
     /// `true` when the thread was unparked while it was blocked on something
     /// other than `park` (a lock, a join, a channel, ...) or had yielded. The
     /// unpark is handed over once the thread becomes runnable again.
@@ -106,6 +110,7 @@ impl Thread {
             dpor_vv: VersionVec::new(),
             last_yield: None,
             yield_count: 0,
+            unpark_causality: VersionVec::new(),
             pending_unpark: false,
             locals: HashMap::new(),
         }
@@ -128,6 +133,13 @@ impl Thread {
     /// Consumes the saved unpark, if any. Called by `park`.
     pub(crate) fn consume_unpark(&mut self) {
         debug_assert!(self.is_runnable());
+
+        if matches!(self.state, State::Runnable { unparked: true }) {
+            // Synchronize memory with the unparkers
+            let unparkers = self.unpark_causality;
+            self.causality.join(&unparkers);
+        }
+
         self.state = State::Runnable { unparked: false };
     }
 
@@ -180,7 +192,9 @@ impl Thread {
     }
 
     pub(crate) fn unpark(&mut self, unparker: &Thread) {
-        self.causality.join(&unparker.causality);
+        // The unparked thread only synchronizes with the unparker if and when
+        // it consumes the unpark in `park`.
+        self.unpark_causality.join(&unparker.causality);
         self.set_unparked();
     }
 
@@ -188,8 +202,9 @@ impl Thread {
     /// future call to `park`.
     fn set_unparked(&mut self) {
         if self.is_parked() {
-            // The unpark is consumed by waking the thread up.
-            self.state = State::Runnable { unparked: false };
+            // Wake the thread up. It consumes the unpark when it resumes; a
+            // second unpark that arrives before that is absorbed, as in `std`.
+            self.state = State::Runnable { unparked: true };
         } else if self.is_runnable() {
             self.state = State::Runnable { unparked: true }
         } else if !self.is_terminated() {
